@@ -198,11 +198,15 @@ def impl(c):
     buf = io.StringIO(); sf.serialize(buf)
     re = G.guarded(lambda: G.sf_obs(SMSimfile(string=text)))
     det = G.guarded(lambda: G.sf_obs(simfile.loads(text)))
+    # the same text handed over as the lines of a file (a list, then an iterator): the loader joins them back together
+    lines = text.splitlines(keepends=True)
+    det_lines = [G.guarded(lambda: G.sf_obs(simfile.load(lines))), G.guarded(lambda: G.sf_obs(simfile.load(iter(lines))))]
     text2 = G.guarded(lambda: str(SMSimfile(string=text)))
     eq = G.guarded(lambda: bool(SMSimfile(string=text) == sf and sf == SMSimfile(string=text) and not (SMSimfile(string=text) != sf)))
     if eq[0] != "ok":
         eq = ["ok", False]          # the reload itself failed: reported by "reload"
-    return {"sf": o, "text": text, "ser_file_same": buf.getvalue() == text, "reload": re, "detect": det, "text2": text2, "eq": eq}
+    return {"sf": o, "text": text, "ser_file_same": buf.getvalue() == text, "reload": re, "detect": det, "text2": text2, "eq": eq,
+            "lines_same": det_lines[0] == det and det_lines[1] == det}
 
 
 def requests(c):
@@ -215,7 +219,7 @@ def model(c, ans):
     re = G.dec_lres(a[1], G.dec_sm)
     det = G.dec_lres(a[2], G.dec_simfile)
     t2 = ["ok", S(a[3][0])] if a[3] else ["err", re[1]]
-    return {"sf": o, "text": S(a[0]), "ser_file_same": True, "reload": re, "detect": det, "text2": t2, "eq": ["ok", bool(re[0] == "ok" and re[1][0] == o[0] and re[1][1] == o[1] and [ch[0] for ch in re[1][2]] == [ch[0] for ch in o[2]])]}     # the library's == looks at properties and the six chart fields, not at extra components
+    return {"sf": o, "text": S(a[0]), "ser_file_same": True, "reload": re, "detect": det, "text2": t2, "lines_same": True, "eq": ["ok", bool(re[0] == "ok" and re[1][0] == o[0] and re[1][1] == o[1] and [ch[0] for ch in re[1][2]] == [ch[0] for ch in o[2]])]}     # the library's == looks at properties and the six chart fields, not at extra components
 
 
 def oracle(c, o):
@@ -234,6 +238,8 @@ def oracle(c, o):
         return "auto-detection does not load it as the same SM simfile: %s" % (str(o["detect"])[:200],)
     if not o["ser_file_same"]:
         return "serialize(file) and str() differ"
+    if o.get("lines_same") is False:
+        return "the serialised text handed to load() as a list / iterator of its lines does not load as it does from the string"
     # chart parameter shape and unescaped multi-value components, read through the tokenizer
     from msdparser import parse_msd
     ps = [p for p in parse_msd(string=o["text"])]
